@@ -8,6 +8,7 @@ import (
 	"fmt"
 	"io"
 	"math/rand"
+	"strconv"
 
 	"github.com/foxboron/go-uefi/authenticode"
 	"github.com/foxboron/go-uefi/efi/signature"
@@ -17,7 +18,9 @@ import (
 // Entry points that take an untrusted image or signature. a[1] is a certificate (DER).
 var c13Entries = map[string]func(in []byte, cert *x509.Certificate){
 	"authenticode.Parse+all": func(in []byte, cert *x509.Certificate) {
-		p, err := authenticode.Parse(bytes.NewReader(in))
+		cr := &countingReaderAt{r: bytes.NewReader(in)}
+		p, err := authenticode.Parse(cr)
+		c13ParseRead = cr.n
 		if err != nil {
 			return
 		}
@@ -54,6 +57,21 @@ var c13Entries = map[string]func(in []byte, cert *x509.Certificate){
 	},
 }
 
+// countingReaderAt counts the bytes a consumer asks its source for.
+type countingReaderAt struct {
+	r io.ReaderAt
+	n int64
+}
+
+func (c *countingReaderAt) ReadAt(p []byte, off int64) (int, error) {
+	n, err := c.r.ReadAt(p, off)
+	c.n += int64(n)
+	return n, err
+}
+
+// the number of bytes the last Parse read from its source
+var c13ParseRead int64
+
 func init() {
 	implOps["c13"] = func(a []string) []string {
 		f, ok := c13Entries[a[0]]
@@ -64,11 +82,12 @@ func init() {
 		if err != nil {
 			return []string{"bad-cert"}
 		}
+		c13ParseRead = -1
 		f(unhx(a[1]), cert)
-		return []string{"done"}
+		return []string{"done", fmt.Sprint(c13ParseRead)}
 	}
 	checkers["C13"] = checker{
-		rule: "for each entry point taking an untrusted image or signature (Parse + Signatures/Hash/Bytes/Open/Verify, ParseAuthenticode + Verify, ParsePKCS7 + Verify/HasCertificate, ReadWinCertificate, descriptor Verify): structure-aware mutations of valid images (e_lfanew, optional-header size, NumberOfRvaAndSizes, SizeOfHeaders, section offsets/sizes incl. overlapping and beyond EOF, hundreds of sections covering the same bytes, a certificate table ending unpadded after an entry whose dwLength is not a multiple of 8, certificate directory beyond the file, every truncation class, WIN_CERTIFICATE dwLength below 8 and huge) and of valid signatures (truncated and oversized DER lengths, signed attributes absent, attributes without contentType, unknown OIDs, every DER-structural edit of C04) plus random bytes; one sandboxed worker call per (entry point, input) reporting return/panic/exit/timeout and the TotalAlloc delta; R_C13 (extracted check_safety) requires a return and TotalAlloc <= 64*|input| + 32 MiB; non-trivial = non-empty input, distinct by (entry, input) hash",
+		rule: "for each entry point taking an untrusted image or signature (Parse + Signatures/Hash/Bytes/Open/Verify, ParseAuthenticode + Verify, ParsePKCS7 + Verify/HasCertificate, ReadWinCertificate, descriptor Verify): structure-aware mutations of valid images (e_lfanew, optional-header size, NumberOfRvaAndSizes, SizeOfHeaders, section offsets/sizes incl. overlapping and beyond EOF, hundreds of sections covering the same bytes, a certificate table ending unpadded after an entry whose dwLength is not a multiple of 8, certificate directory beyond the file, every truncation class, WIN_CERTIFICATE dwLength below 8 and huge) and of valid signatures (truncated and oversized DER lengths, signed attributes absent, attributes without contentType, unknown OIDs, every DER-structural edit of C04) plus random bytes; one sandboxed worker call per (entry point, input) reporting return/panic/exit/timeout and the TotalAlloc delta; thousands of one-byte sections; R_C13 (extracted check_safety) requires a return and TotalAlloc <= 64*|input| + 32 MiB, and the same bound for the number of bytes Parse reads from its source; non-trivial = non-empty input, distinct by (entry, input) hash",
 		run:  runC13,
 	}
 }
@@ -138,6 +157,12 @@ func peFieldMutant(rng *rand.Rand, img []byte) ([]byte, string) {
 		// hundreds of sections that all cover the same bytes
 		n := 200 + rng.Intn(900)
 		span := 16384 << uint(rng.Intn(3))
+		tiny := rng.Intn(3) == 0
+		if tiny {
+			// thousands of one-byte sections laid back to back: legal, and every per-section cost shows
+			n = 2000 + rng.Intn(3000)
+			span = n
+		}
 		h := (secTab + 40*n + 511) &^ 511
 		out := append([]byte{}, m[:secTab]...)
 		for i := 0; i < n; i++ {
@@ -147,6 +172,11 @@ func peFieldMutant(rng *rand.Rand, img []byte) ([]byte, string) {
 			binary.LittleEndian.PutUint32(sh[12:], uint32(0x1000*(i+1)))
 			binary.LittleEndian.PutUint32(sh[16:], uint32(span))
 			binary.LittleEndian.PutUint32(sh[20:], uint32(h))
+			if tiny {
+				binary.LittleEndian.PutUint32(sh[8:], 1)
+				binary.LittleEndian.PutUint32(sh[16:], 1)
+				binary.LittleEndian.PutUint32(sh[20:], uint32(h+i))
+			}
 			out = append(out, sh...)
 		}
 		for len(out) < h {
@@ -160,6 +190,9 @@ func peFieldMutant(rng *rand.Rand, img []byte) ([]byte, string) {
 		put32(e+12, 0)
 		put32(opt+ddoff+32, 0)
 		put32(opt+ddoff+36, 0)
+		if tiny {
+			return m, "many-tiny-sections"
+		}
 		return m, "overlap-many"
 	case 0:
 		put32(0x3c, pick(rng, vals32))
@@ -264,6 +297,18 @@ func runC13(c *Ctx) {
 			}
 		}
 		c.Rep.Record(entry, class, len(in) > 0, fmt.Sprintf("%d bytes", len(in)), append([]string{entry, hx(in)}, args...), v, info, map[string]string{"entry": entry, "class": cls})
+		// the work of Parse, counted in bytes read from its source (independent of the machine), obeys the same bound
+		if cls == "ret" && len(o.Fields) > 1 && o.Fields[1] != "-1" {
+			rargs := []string{fmt.Sprint(len(in)), cls, o.Fields[1]}
+			rv, rinfo := c.Drv.Eval("safety", rargs...)
+			if rv != "ok" {
+				rinfo = append(rinfo, "Parse read "+o.Fields[1]+" bytes from a source of "+fmt.Sprint(len(in)), "input="+hx(in))
+			}
+			c.Rep.Record(entry+"/read-volume", class, len(in) > 0, fmt.Sprintf("%d bytes", len(in)), append([]string{entry + "/read-volume", hx(in)}, rargs...), rv, rinfo, map[string]string{"entry": entry, "what": "read-volume"})
+			if r, _ := strconv.ParseInt(o.Fields[1], 10, 64); len(in) > 0 && int(r)/len(in) > c.Rep.Histogram["max-parse-passes"] {
+				c.Rep.Histogram["max-parse-passes"] = int(r) / len(in)
+			}
+		}
 	}
 	// valid images (signed and unsigned) and signatures
 	var images [][]byte
